@@ -55,6 +55,14 @@ def multiword(rnd, count):
 def malformed(rnd, count):
     out = ["rtp 00001b00000000c0000000a0000004a00200000001020304000055",     # regression: stale namespace offset after an undefined field
            "rtp -", "rtp 00", "rtp 00000800000000", "rtp 0000080000000000", "rtp 0100080000000000", "rtp 0000070000000000", "rtp 0000090000000000"]
+    # every announced length around the 255-octet limit with the bytes present (filler inside the header)
+    for N in (200, 253, 254, 255, 256, 257, 300):
+        for fs in ([], [1, 2], [3, 5, 22]):
+            base = rtbuild.build([{"fields": fs}], rnd)
+            g = bytearray(base + bytes(rnd.getrandbits(8) for _ in range(max(0, N - len(base)))))
+            g[2:4] = N.to_bytes(2, "little")
+            out.append("rtp " + hexs(g))
+            out.append("rtp " + hexs(g + b"\x01\x02\x03"))
     for _ in range(count):
         good = bytearray(rtbuild.build([{"fields": rnd.sample(range(23), rnd.randrange(0, 10))}], rnd))
         k = rnd.random()
